@@ -95,20 +95,26 @@ def _deliver(raw, dst, ledger, frame_size, who):
 
 @harness(pre=['0 <= n2 <= 3 and 0 <= s1 <= 1 and 0 <= s2 <= 1 and 0 <= s3 <= 1 and 0 <= s4 <= 1 and 0 <= s5 <= 1'], family='dlc-transfer', twin=True,
          kernels=K_DLC, timeout=(90, 300), canaries=[('data-on-credit-frame-without-tx-credit', _canary_data_without_credit)],
-         grids=[(('quick',), {'frame_size': [2, 5], 'ca': [1, 3], 'cb': [1], 'n1': [1, 7], 'back': [0, 3]}),
-                (('thorough',), {'frame_size': [2, 3, 5, 8], 'ca': [1, 2, 3, 7], 'cb': [1, 7], 'n1': [1, 4, 7, 12], 'back': [0, 3, 6]})],
-         bounds='two DLCs, frame size / initial credits per condition (scaled 2..8, credits 1..7), A writes n1 then 0..3 distinct bytes (symbolic count), B writes `back` bytes, first 5 delivery choices symbolic (A->B or B->A frame next): both byte streams identical, payload <= frame size (-1 with a credit byte), never data without a credit, both transfers complete')
-def dlc_transfer(n2: int, s1: int, s2: int, s3: int, s4: int, s5: int, frame_size: int, ca: int, cb: int, n1: int, back: int) -> bool:
+         grids=[(('quick',), {'frame_size': [2, 5], 'ca': [1, 3], 'cb': [1], 'n1': [1, 7], 'back': [0, 3], 'scale': [0, 1], 'late_sink': [0]}),
+                (('quick',), {'frame_size': [2], 'ca': [3], 'cb': [1], 'n1': [7], 'back': [3], 'scale': [1], 'late_sink': [1]}),
+                (('thorough',), {'frame_size': [2, 3, 5, 8], 'ca': [1, 2, 3, 7], 'cb': [1, 7], 'n1': [1, 4, 7, 12], 'back': [0, 3, 6], 'scale': [0, 1], 'late_sink': [0, 1]})],
+         bounds='two DLCs, frame size / initial credits per condition (scaled 2..8, credits 1..7), A writes n1 then 0..3 distinct bytes (symbolic count), B writes `back` bytes, first 5 delivery choices symbolic (A->B or B->A frame next), default or scaled (3/1) replenishment maximum/threshold, receiver sink attached at once or after 3 deliveries: both byte streams identical, payload <= frame size (-1 with a credit byte), never data without a credit, both transfers complete')
+def dlc_transfer(n2: int, s1: int, s2: int, s3: int, s4: int, s5: int, frame_size: int, ca: int, cb: int, n1: int, back: int, scale: int, late_sink: int) -> bool:
     n2, s1, s2, s3, s4, s5 = C(n2, 0, 3), C(s1, 0, 1), C(s2, 0, 1), C(s3, 0, 1), C(s4, 0, 1), C(s5, 0, 1)
     with untraced():
-        return _dlc_transfer_concrete(n2, [s1, s2, s3, s4, s5], frame_size, ca, cb, n1, back)
+        return _dlc_transfer_concrete(n2, [s1, s2, s3, s4, s5], frame_size, ca, cb, n1, back, scale, late_sink)
 
 
-def _dlc_transfer_concrete(n2, sched, frame_size, ca, cb, n1, back):
+def _dlc_transfer_concrete(n2, sched, frame_size, ca, cb, n1, back, scale, late_sink):
     with detloop.running():
         ma, mb, a, b = _pair(frame_size, ca, cb)
+        if scale:
+            # scaled replenishment geometry (default: maximum 40 / threshold 16): frames without a credit byte occur within a few frames
+            for d in (a, b):
+                d.rx_max_credits, d.rx_credits_threshold = 3, 1
         got_b, got_a = [], []
-        b.sink = got_b.append
+        if not late_sink:
+            b.sink = got_b.append
         a.sink = got_a.append
         ledger = [ca, cb]                 # credits held by A (to send to B) and by B
         wa = bytes(range(1, 1 + n1 + n2))          # distinct bytes: reordering, loss and duplication are all visible
@@ -119,7 +125,9 @@ def _dlc_transfer_concrete(n2, sched, frame_size, ca, cb, n1, back):
         if back:
             b.write(wb)
         ia = ib = 0
-        for s in list(sched) + [0, 1] * 60:
+        for step, s in enumerate(list(sched) + [0, 1] * 60):
+            if late_sink and step == 3:
+                b.sink = got_b.append          # frames received so far were parked; they must come out in order
             if s == 0 and ia < len(ma.out):
                 if not _deliver(ma.out[ia], b, ledger, frame_size, 0):
                     return False
@@ -134,6 +142,8 @@ def _dlc_transfer_concrete(n2, sched, frame_size, ca, cb, n1, back):
                 ia += 1
             else:
                 break
+        if late_sink and b.sink is None:
+            b.sink = got_b.append
         return b''.join(got_b) == wa and b''.join(got_a) == wb and a.tx_credits == ledger[0] and b.tx_credits == ledger[1]
 
 
